@@ -476,6 +476,32 @@ MAGNITUDE = {
 }
 
 
+_CL = (" CLONES: copy.deepcopy and pickle copies of a large IR (cold and "
+       "warm indexes) are checked with the whole-IR oracle (mc/oracle.py) "
+       "before and after edits to the copy, and the original afterwards.")
+for _p in ("C03", "C04", "C05", "C06", "C10", "C11", "C12", "C13", "C18",
+           "C19"):
+    MAGNITUDE[_p] = MAGNITUDE[_p] + _CL
+MAGNITUDE["C07"] += (" Every value is also encoded in every other legal "
+                     "Python shape (tuple / bytes / bytearray / range / "
+                     "frozenset / keys view / OrderedDict / mappingproxy / "
+                     "list) and decoded from bytearray / memoryview / stream.")
+MAGNITUDE["C08"] += " Alternative value shapes as in C07."
+MAGNITUDE["C01"] += (" COINCIDENCES: every constant of the module enums x "
+                     "padded / cased / mangled names and extents ending at "
+                     "2^16, 2^31, 2^32, 2^63, 2^64; saving by path over an "
+                     "existing longer file.")
+MAGNITUDE["C02"] += (" Coincidence cases as in C01; a second save after "
+                     "editing every node.")
+MAGNITUDE["C19"] += (" Coincidence cases (enum constant x extent at 2^k) "
+                     "through size / initialized_size assignments and "
+                     "save+load.")
+MAGNITUDE["C17"] += (" Direct dangling / ill-typed reference faults; all "
+                     "structural faults a second time under python -O.")
+MAGNITUDE["C10"] += (" Names that are glob / regex / format patterns next "
+                     "to names they would match, NFC vs NFD, NUL.")
+
+
 def build():
     checks = []
     na = []
